@@ -34,7 +34,7 @@ def run(prop, tier, replay=None):
         trace = scratch.path("trace.ndjson")
         # every pattern set is concretised with seeded segment texts and requests: the thorough tier draws 12 times
         with open(trace, "w") as tf:
-            for k in range(1 if (tier == "quick" or replay) else 12):
+            for k in range(1 if (tier == "quick" or replay) else 100):
                 part = scratch.path("trace%d.ndjson" % k)
                 p, _ = C.run([harness, "mount", "-cases", cpath, "-out", part, "-seed", str(seed + 1000 * k)], timeout=1800)
                 if p.returncode != 0:
